@@ -12,22 +12,23 @@ NA = {
  'C20': 'observational equivalence of containers with standard models over operation histories; a field co-update lint would be a brittle proxy',
 }
 TECH = {
- 'C01': 'static analysis: constant-table lint (sortedness under the search comparator, XSLT 1.0 vocabulary) + producer/consumer switch exhaustiveness',
- 'C02': 'static analysis: keyword-table lint, op-code producer-subset-of-consumer over the call graph, finite-domain interpretation of the comparison dispatch, grammar-recursion rule',
- 'C03': 'static analysis: interprocedural exception-escape fixpoint, sibling handler agreement, format-string buffer bounds, guarded float-to-int casts, CFG must-pass-through rules',
- 'C04': 'static analysis: constant-table lint + finite-domain interpretation of predicate ASTs, CFG guard accounting for buffer stores, template-instantiation consistency',
+ 'C01': 'static analysis: constant-table lint (sortedness under the search comparator, XSLT 1.0 vocabulary), producer/consumer switch exhaustiveness, finite-domain interpretation of the xsl:element namespace fix-up',
+ 'C02': 'static analysis: keyword-table lint, op-code producer-subset-of-consumer over the call graph, finite-domain interpretation of the comparison dispatch and of the IEEE arithmetic primitives, grammar-recursion rule, position-cache coherence over the CFG',
+ 'C03': 'static analysis: interprocedural exception-escape fixpoint, sibling handler agreement, format-string buffer bounds, guarded float-to-int casts and integer divisions, CFG must-pass-through rules',
+ 'C04': 'static analysis: constant-table lint + finite-domain interpretation of predicate ASTs, of the escape functions and of the CDATA sectioning code, CFG guard accounting for buffer stores, template-instantiation consistency',
  'C06': 'static analysis: write-set (effect) analysis over the CHA call graph versus the reset closure; CFG dominance of the reset guard',
  'C07': 'static analysis: effect analysis (writes to static storage and to shared classes) over the CHA call graph with cut sets',
- 'C08': 'static analysis: template-argument comparison of serializer instantiations, who-may-call, HTML element table lint',
- 'C09': 'static analysis: pattern op-code producers versus stepPattern/getTargetData switch labels; single NodeTester rule',
- 'C10': 'static analysis: exhaustive switch evaluation of match-score constants; finite-domain interpretation of getTargetData',
- 'C11': 'static analysis: sibling dispatch agreement across the six executeMore switches (labels, kernels, canonical conversions)',
- 'C12': 'static analysis: CFG must-pass-through of the order flag in axis functions; who-may-call for raw addNode',
+ 'C08': 'static analysis: template-argument comparison of serializer instantiations, who-may-call, HTML element table lint, bounded interpretation of the indenting serializer\'s event handlers over all event sequences (abstract output tokens)',
+ 'C09': 'static analysis: pattern op-code producers versus stepPattern/getTargetData switch labels; single NodeTester rule; CFG loop-exit rule for the ancestor search',
+ 'C10': 'static analysis: exhaustive switch evaluation of match-score constants; finite-domain interpretation of getTargetData and of the lookup-list builders on all small inputs; structural agreement of the two findTemplate branches',
+ 'C11': 'static analysis: sibling dispatch agreement across the six executeMore switches (labels, kernels, canonical conversions); append protocol of the string-result overloads',
+ 'C12': 'static analysis: CFG must-pass-through of the order flag in axis functions; who-may-call for raw addNode; dominating-justification rule for whole-range transfers in the ordered merge',
  'C13': 'static analysis: who-may-call for strip-unaware text access; CFG guard dominance of text sinks',
  'C16': 'static analysis: stable_sort call rule + finite-domain interpretation of the key comparator',
- 'C19': 'static analysis: destructor-reachable allocation over the call graph, placement-new pairing, manager agreement, new/delete confinement',
+ 'C19': 'static analysis: destructor-reachable allocation over the call graph, placement-new pairing, manager agreement, new/delete confinement, ownership analysis of pointer containers (removal and keyed-store sites)',
 }
-claimed = sorted(p[:-3].upper() for p in os.listdir(os.path.join(V, 'xv', 'rules')) if p[0] == 'c' and p[1:3].isdigit() and p.endswith('.py'))
+import re
+claimed = sorted(p[:-3].upper() for p in os.listdir(os.path.join(V, 'xv', 'rules')) if re.match(r'^c\d\d\.py$', p))
 m = {'version': 1, 'setup_cmd': 'make -C /verif all',
      'hooks': {'guard': 'APACHE_XALAN_C_VERIF', 'enable': "none needed: the checks parse /repo with the build's own flags (compile DB from /repo/_build/build.ninja); nothing is instrumented",
                'baseline_off_cmd': 'ctest --test-dir /repo/_build -j8 --timeout 900', 'source_commits': [], 'add_only': True},
